@@ -101,10 +101,19 @@ EqForm(v) ==
 \* type terms arriving from JSON embed default VALUES (dataclass / named tuple fields): normalise them
 NormD(d) == IF d[1] \in {"val", "fac"} THEN <<d[1], NormV(d[2])>> ELSE d
 RECURSIVE NormT(_)
+\* strategy tables << <<key type term, strategy>> ... >> and dialect option lists (sets arrive from JSON as arrays)
+NormTable(tab) == [k \in DOMAIN tab |-> <<NormT(tab[k][1]), tab[k][2]>>]
+NormDialect(d) == [i \in DOMAIN d |-> IF d[i][1] = "no_copy" THEN <<"no_copy", Range(d[i][2])>>
+                                       ELSE IF d[i][1] = "strategy" THEN <<"strategy", NormTable(d[i][2])>> ELSE d[i]]
+NormCfgOpt(o) == CASE o[1] = "bases" -> <<"bases", [k \in DOMAIN o[2] |-> NormT(o[2][k])]>>
+                   [] o[1] \in {"flags", "hooks"} -> <<o[1], Range(o[2])>>
+                   [] o[1] = "dialect" -> <<"dialect", NormDialect(o[2])>>
+                   [] o[1] = "cfg_strategy" -> <<"cfg_strategy", NormTable(o[2])>>
+                   [] OTHER -> o
 NormT(T) ==
   CASE T[1] = "dc" -> <<"dc", T[2],
                         [i \in DOMAIN T[3] |-> <<T[3][i][1], NormT(T[3][i][2]), NormD(T[3][i][3]), T[3][i][4]>>],
-                        [i \in DOMAIN T[4] |-> IF T[4][i][1] = "bases" THEN <<"bases", [k \in DOMAIN T[4][i][2] |-> NormT(T[4][i][2][k])]>> ELSE T[4][i]]>>
+                        [i \in DOMAIN T[4] |-> NormCfgOpt(T[4][i])]>>
     [] T[1] = "ntuple" -> <<"ntuple", T[2], [i \in DOMAIN T[3] |-> <<T[3][i][1], NormT(T[3][i][2]), NormD(T[3][i][3])>>]>>
     [] T[1] = "tdict"  -> <<"tdict", T[2], [i \in DOMAIN T[3] |-> <<T[3][i][1], NormT(T[3][i][2]), T[3][i][3]>>]>>
     [] T[1] \in {"list", "deque", "seq", "mseq", "vtuple", "opt", "set", "frozenset", "aset", "counter", "final", "annotated"} ->
